@@ -172,7 +172,13 @@ func (l *listener) handle(conn net.Conn) {
 
 	buf := bufPool.Get().([]byte)
 	buf = buf[:0]
-	defer bufPool.Put(buf)
+	defer func() {
+		// a hijacked connection keeps reading its prefetched bytes from this buffer,
+		// so it must not be handed to another connection
+		if !errors.Is(err, errHijacked) {
+			bufPool.Put(buf)
+		}
+	}()
 
 	cx := WrapConnection(conn, buf, l.logger)
 	cx.Context = context.WithValue(cx.Context, listenerCtxKey, l)
